@@ -237,6 +237,32 @@ fn dimensions() -> Vec<(&'static str, Vec<Mod>, Vec<Mod>)> {
         }));
     }
     dims.push(("ip-bits", full, red));
+    // every single bit of every wide field whose zero-ness (or value) decides a quirk: a mask that is one digit short, a
+    // comparison on a truncated copy, a field read at the wrong width all show on one of these
+    let mut bits: Vec<Mod> = vec![];
+    for k in 0..20u32 {
+        bits.push(m(move |s| s.flow = 1 << k));
+        bits.push(m(move |s| s.flow = 0xFFFFF ^ (1 << k)));
+    }
+    for k in 0..16u32 {
+        bits.push(m(move |s| s.id = 1 << k));
+        bits.push(m(move |s| s.urg = 1 << k));
+        bits.push(m(move |s| {
+            s.urg = 1 << k;
+            s.flags |= URG;
+        }));
+    }
+    for k in 0..32u32 {
+        bits.push(m(move |s| s.seq = 1 << k));
+        bits.push(m(move |s| s.ack = 1 << k));
+        bits.push(m(move |s| s.opts = [vec![1, 1], ts_opt(1 << k, 0)].concat()));
+        bits.push(m(move |s| s.opts = [vec![1, 1], ts_opt(7, 1 << k)].concat()));
+    }
+    for k in 0..13u32 {
+        bits.push(m(move |s| s.frag_off = if s.v6 { 0 } else { 1 << k }));
+    }
+    let red_bits: Vec<Mod> = vec![m(|s| s.flow = 0x10000), m(|s| s.id = 0x100), m(|s| s.seq = 0x0100_0000), m(|s| s.ack = 0x0001_0000)];
+    dims.push(("single-bits-of-wide-fields", bits, red_bits));
     // IHL
     dims.push(("ihl", (0..=10u8).map(|w| m(move |s| s.ip_opt_words = if s.v6 { 0 } else { w })).collect(), [0u8, 1, 10].iter().map(|&w| m(move |s| s.ip_opt_words = if s.v6 { 0 } else { w })).collect()));
     // payload
@@ -508,7 +534,7 @@ pub fn run(thorough: bool) -> Outcome {
     total = total.merge(mtu_labels());
     Outcome {
         report: total,
-        rule: "frames built from descriptions: every dimension (flags x seq/ack/urg zero-ness; TTL; DF/MF/reserved/ID/ECN/fragment/flow label; IHL; payload; window x MSS x TS) over its whole domain at 6 base frames (v4/v6 x SYN/SYN+ACK/ACK), all pairs of alphabet values across dimensions, 3 framings, all 65536 windows x MSS alphabet x TS x version, DFS over option sequences with three alignment paddings, EOL at every position with every padding, the (kind,length,offset,tail) space of one option; link labels: 5 databases whose [mtu] groups are unsorted / repeated / shared between groups x every MSS 0..65535 x IPv4/IPv6 SYN (label of the first group in file order that lists the MTU); through the TCP pipeline and the unified analyzer; distinct = distinct (signature text, MTU, role) outcomes".into(),
+        rule: "frames built from descriptions: every dimension (flags x seq/ack/urg zero-ness; TTL; DF/MF/reserved/ID/ECN/fragment/flow label; every single bit of flow label, IP id, sequence and acknowledgement numbers, urgent pointer, fragment offset and both timestamp values; IHL; payload; window x MSS x TS) over its whole domain at 6 base frames (v4/v6 x SYN/SYN+ACK/ACK), all pairs of alphabet values across dimensions, 3 framings, all 65536 windows x MSS alphabet x TS x version, DFS over option sequences with three alignment paddings, EOL at every position with every padding, the (kind,length,offset,tail) space of one option; link labels: 5 databases whose [mtu] groups are unsorted / repeated / shared between groups x every MSS 0..65535 x IPv4/IPv6 SYN (label of the first group in file order that lists the MTU); through the TCP pipeline and the unified analyzer; distinct = distinct (signature text, MTU, role) outcomes".into(),
         exhaustive: true,
         bounds: json!({"option_sequences": seqs.len(), "max_options_in_sequence": if thorough {4} else {3}, "single_option_space": space.len(), "window_sweep_mss": mss_sweep.len()}),
     }
